@@ -466,8 +466,11 @@ func c08(c *core.Check) {
 		r7.Unknown("html/tree | variables field", "-", "no assignment of a `variables` field found")
 	}
 
+	r9 := c.Rule("R9", "a comment is white space to the value parsers: every switch and condition of the parsing code that steps over white space steps over comments too (the document pipeline keeps comments as tokens), so that `rgb(0, /**/ 0, 0)` or `!important /**/` mean what they mean without the comment", 6)
+	triviaRule(c, r9)
+
 	// ---- R5 var() cycles
-	r5 := c.Rule("R5", "tree.resolveVar follows custom properties under a visited set: a membership test on the variable name excludes the lookup of its value, and the name is inserted before the looked-up tokens are resolved recursively", 1)
+	r5 := c.Rule("R5", "tree.resolveVar follows custom properties under a visited set: a membership test on the variable name excludes the lookup of its value, and the name is inserted before the looked-up tokens are resolved recursively and removed again when that resolution returns (the set holds the resolutions in progress, not every name seen)", 3)
 	rv := p.Fn("html/tree", "resolveVar")
 	if rv == nil {
 		r5.Anchor("html/tree.resolveVar")
@@ -480,6 +483,8 @@ func c08(c *core.Check) {
 		r5.Cond(ok, "html/tree.resolveVar | computed[variableName]", p.Pos(rv.Pos()), why, why+": --a: var(--a) recurses until the stack is exhausted")
 		ok2, why2 := core.DescendingRecursion(p, rv, 1)
 		r5.Cond(ok2, "html/tree.resolveVar | recursion descends", p.Pos(rv.Pos()), why2, why2+": a function whose nested argument still holds a var() is rebuilt and resolved again without end")
+		ok3, why3, _ := core.ScopedInsertions(rv)
+		r5.Cond(ok3, "html/tree.resolveVar | the set holds the resolutions in progress only", p.Pos(rv.Pos()), why3, why3+": a custom property used twice in one value (rgb(var(--c), var(--c), var(--c))) is taken for a cycle the second time and replaced by its fallback")
 	}
 }
 
